@@ -14,9 +14,8 @@ class RefError(Exception):
     pass
 
 
-def load_spec(driver_runner):
-    table = json.loads(driver_runner(["spec-layouts"])[0])
-    return {bytes.fromhex(e["name"]): e["layout"] for e in table}
+def layouts_of(spec_json):
+    return {bytes.fromhex(e["name"]): e["layout"] for e in spec_json["layouts"]}
 
 
 def split_chunks(data):
